@@ -274,7 +274,23 @@ func TestC15_History(t *testing.T) {
 		for i := range calls {
 			var e ast.Expr
 			var doc jv.Val
-			switch rapid.IntRange(0, 3).Draw(t, "kind") {
+			switch rapid.IntRange(0, 4).Draw(t, "kind") {
+			case 4:
+				// string functions over strings that are easily confused with one
+				// another once decoded (invalid bytes and U+FFFD all decode to
+				// utf8.RuneError): whatever the library remembers between calls
+				// must not be keyed by something that merges them
+				hs := func(label string) jv.Val {
+					return jv.VStr(gen.Pick(t, label, []string{"\xff", "\xfe", "\x80", "\xc3", "\ufffd", "\ufffd\ufffd", "\xe2\x82", "\xef\xbf", "é", "a", "ab", "", "日", "\x00", " ", "\u00a0"}))
+				}
+				doc = jv.VObj([]jv.Member{{K: "s", V: hs("hs")}, {K: "p", V: hs("hp")}, {K: "q", V: hs("hq")}})
+				pr := ast.Parse(gen.Pick(t, "hostilecall", []string{"pad_left(s, `4`, p)", "pad_right(s, `3`, p)", "pad_left(q, `6`, p)", "replace(s, p, q)", "split(s, p)", "join(p, [s, q])", "trim(s, p)", "trim_left(s, p)",
+					"find_first(s, p)", "find_last(s, p)", "contains(s, p)", "starts_with(s, p)", "ends_with(s, p)", "reverse(s)", "upper(s)", "lower(s)", "s[::-1]", "s[::2]", "length(s)", "[s, p] == [p, s]", "sort([s, p, q])",
+					"to_string(s)", "max([s, p])", "sort_by([s, p, q], &@)", "group_by([s, p, q], &@)", "{a: s, b: p}", "s < p", "to_array(s)[0] == p", "from_items([[s, p], [p, q]])", "keys(from_items([[s, `1`], [p, `2`]]))"}))
+				if pr.Verdict != ast.In {
+					t.Fatalf("HARNESS-BUG: palette expression does not parse: %s", pr.Reason)
+				}
+				e = pr.Expr
 			case 0:
 				doc = gen.Doc(t, gen.DocCfg{MaxDepth: 3, MaxFan: 3})
 				g := &gen.G{T: t, Root: doc, Cfg: fullCfg()}
